@@ -407,8 +407,9 @@ impl NetcodeServer {
                 packet.packet_type()
             );
 
-            // Connection requests are not authenticated, they cannot refresh the timeout
-            if !matches!(packet, Packet::ConnectionRequest { .. }) {
+            // Only packets covered by the replay protection refresh the timeout,
+            // connection requests are not authenticated and handshake packets can be replayed
+            if matches!(packet, Packet::KeepAlive { .. } | Packet::Payload(_) | Packet::Disconnect) {
                 client.last_packet_received_time = self.current_time;
             }
             match client.state {
